@@ -75,7 +75,12 @@ def c18(ck, scratch, vh, prop, tier, seed, ev):
             short = tuple(sorted(str(f).replace('github.com/kelindar/column', '') for f in fns))
             if kind == 'unclassified':
                 unclassified[short] += 1
-                continue
+                if all(f and f.startswith('github.com/kelindar/column') for f in fns) and len(fns) == 2:
+                    # both sides are inside the library, on memory the function table does not name: a race all the same
+                    # (every accessor of the known racy variables is in the table), judged as a variable nothing excuses
+                    kind, v = 'violation', 'unmapped'
+                else:
+                    continue
             key = (kind, v)
             if key not in verdicts:
                 verdicts[key] = {'n': 0, 'fns': set()}
